@@ -25,6 +25,12 @@ let () =
   register "regen" (function [outdir; old; fresh] ->
       let (written, returned) = Preserve.regen (str outdir) (old_of old) (cmodel fresh) in
       L [L (List.map (fun (n, c) -> L [S n; S c]) written); vstrs returned] | _ -> failwith "arity");
+  register "utf8_valid" (function [s] -> vbool (Preserve.utf8_valid (str s)) | _ -> failwith "arity");
+  register "regen_dir" (function [outdir; dir; fresh] ->
+      (* dir: [ [name bytes] ... ] for the names that exist *)
+      let tbl = List.map (fun e -> match lst e with [n; c] -> (str n, str c) | _ -> failwith "dir entry") (lst dir) in
+      let (written, returned) = Preserve.regen_dir (str outdir) (fun n -> List.assoc_opt n tbl) (cmodel fresh) in
+      L [L (List.map (fun (n, c) -> L [S n; S c]) written); vstrs returned] | _ -> failwith "arity");
   register "file_sync" (function [a; b] -> S (Preserve.file_sync (str a) (str b)) | _ -> failwith "arity");
   register "wf_fresh" (function [ls] -> vbool (Preserve.wf_fresh_file (strs ls)) | _ -> failwith "arity");
   register "join" (function [a; b] -> S (Preserve.join (str a) (str b)) | _ -> failwith "arity")
